@@ -56,6 +56,15 @@ class ValueInfo:
             raise ZConfig.DataConversionError(e, self.value, self.position)
 
 
+def _convert_default_key(key, keytype):
+    # A default's key that the key type refuses is an error in the schema.
+    try:
+        return keytype(key)
+    except ValueError as e:
+        raise ZConfig.SchemaError(
+            "could not convert key of default value to keytype: " + str(e))
+
+
 class BaseInfo:
     """Information about a single configuration key."""
 
@@ -172,7 +181,7 @@ class KeyInfo(BaseKeyInfo):
     def computedefault(self, keytype):
         self.prepare_raw_defaults()
         for k, vi in self._rawdefaults.items():
-            key = ValueInfo(k, vi.position).convert(keytype)
+            key = _convert_default_key(k, keytype)
             self.add_valueinfo(vi, key)
 
     def getdefault(self):
@@ -206,7 +215,7 @@ class MultiKeyInfo(BaseKeyInfo):
     def computedefault(self, keytype):
         self.prepare_raw_defaults()
         for k, vlist in self._rawdefaults.items():
-            key = ValueInfo(k, vlist[0].position).convert(keytype)
+            key = _convert_default_key(k, keytype)
             for vi in vlist:
                 self.add_valueinfo(vi, key)
 
